@@ -1010,7 +1010,9 @@ impl<'a> DisasmContext<'a> {
                     "float -inf".to_string()
                 }
             } else {
-                format!("float {}", f)
+// {:?} always prints a decimal point or an exponent (6.02e23, 2.0), so the
+                // assembler's lexer reads a float back, never an integer literal
+                format!("float {:?}", f)
             }
         } else if let Some(func_idx) = value.as_nested_fn_marker() {
             let name = nested_functions
